@@ -71,6 +71,16 @@ add("C06",
     "numpy sum/cumsum/mean as the reference; translations of a few cells (far translations change the cell size by "
     "rounding).")
 
+add("C07",
+    "Hypothesis-generated selections built from the lattice (centres, faces, interior points, aligned/arbitrary boxes, "
+    "pad widths/modes, target resolutions) against a point-wise 'same value and validity at the same position' oracle "
+    "with an exact lattice model",
+    "Generated-input search; every cell of every result is compared with the source cell that an exact rational model "
+    "places at that position (either neighbour for a coordinate on a face, both for value and validity), result shapes "
+    "and corners follow index arithmetic, padding follows a 15-line index model, out-of-region requests must raise.",
+    "Exact lattice model trusted; meshes with subregions at scales 1e-9..1; cell values are unique in component 0 so a "
+    "misplaced cell always shows.")
+
 PENDING = {}
 
 
